@@ -43,25 +43,27 @@ CHECKS = {
     },
     "C12": {
         "text": "Coq theorems (Props/C12.v) over a Gallina model of aig.rs (lit_defs, LitMap, the explicit-stack machine of "
-                "Renumber::transfer with its middle-of-the-stack cycle test, initialize, renumber_aig, Aig::from(OrderedAig)): for "
-                "every graph and all 8 option combinations a successful result has inputs, latches, gates numbered consecutively, "
-                "every gate's inputs below the gate with the larger first, max_var_index = I+L+gates (step invariant of the machine); "
-                "for every graph without a doubly defined variable every output, next-state, bad, constraint, justice, fairness "
-                "literal and every lit_map entry has the same value before and after under every assignment (semantic step "
-                "invariant: map, structural-hash index and stack frames sound; const-fold cases x&0, x&1, x&x; evaluation of the "
-                "result through the same eval function on Aig::from(ordered)); LitNotDefined / FoundCycle / LitAlreadyDefined "
-                "each imply the corresponding defect, unwrap never panics; the loop terminates on every graph of any depth, cyclic "
-                "or not (the stack literals form an orbit of a function of the current map, every push passed the middle-of-the-"
-                "stack test, so the stack stays below 4*gates+2 frames; a potential bounds the steps; at most 7 steps per gate on "
-                "acyclic graphs). FINDING D10: latch state literals are not part of the "
-                "redefinition check (C12_latch_clash_refuted, witness replayed on the crate). The model is tied to the code by "
-                "the rn stream (random, adversarial and 2000-deep graphs, debug and release) and an implementation-only oracle "
-                "(order checks, exhaustive truth tables up to 6 variables, 64-bit parallel simulation above, independent "
-                "cycle / undefined / redefined detector).",
+                "Renumber::transfer with its middle-of-the-stack cycle test, initialize with its latch check, renumber_aig, "
+                "Aig::from(OrderedAig)): for every graph and all 8 option combinations a successful result has inputs, latches, "
+                "gates numbered consecutively, every gate's inputs below the gate with the larger first, max_var_index = "
+                "I+L+gates (step invariant of the machine); whenever a circuit is returned, every output, next-state, bad, "
+                "constraint, justice, fairness literal and every lit_map entry has the same value before and after under every "
+                "assignment (semantic step invariant: map, structural-hash index and stack frames sound; const-fold cases x&0, "
+                "x&1, x&x; evaluation of the result through the same eval function on Aig::from(ordered); no well-formedness "
+                "hypothesis: a returned circuit implies that no variable is defined twice); LitAlreadyDefined l is returned "
+                "exactly when l is the first literal, in the order constant / inputs / gate outputs / latch states, whose "
+                "variable was defined before (so every double definition, latch states included, in either polarity, is "
+                "rejected with the right literal); LitNotDefined / FoundCycle each imply the corresponding defect; unwrap never "
+                "panics; the loop terminates on every graph of any depth, cyclic or not (the stack literals form an orbit of a "
+                "function of the current map, every push passed the middle-of-the-stack test, so the stack stays below "
+                "4*gates+2 frames; a potential bounds the steps; at most 7 steps per gate on acyclic graphs). The model is tied "
+                "to the code by the rn stream (random, adversarial and 2000-deep graphs, debug and release) and an "
+                "implementation-only oracle (order checks, exhaustive truth tables up to 6 variables, 64-bit parallel "
+                "simulation above, independent first-clash / cycle / undefined detector).",
         "design_ref": "DESIGN.md 2/C12",
         "note": "Trusted: Coq kernel; std++ gmap (axiom-free); extraction; hand model of aig.rs with hash maps as finite maps and "
-                "usize codes as unbounded N, validated differentially each run. Known "
-                "finding D10 (latch clash unreported) is listed in known_findings.json.",
+                "usize codes as unbounded N, validated differentially each run. Defect D10 (latch state clash not reported, "
+                "constant-false output renumbered to a latch) was found by this check and fixed in /repo (3b322e7).",
         "technique": "Coq proof (step invariants of the stack machine, orbit/pigeonhole argument and potential for termination) + "
                      "model/implementation correspondence",
     },
@@ -124,5 +126,79 @@ CHECKS = {
         "note": "Trusted: as C02. Partial: Vec growth policy, shrink_to_fit and allocator overhead are runtime behaviour (measured); the "
                 "parsers' per-item buffers are measured, not modelled.",
         "technique": "Coq proof (buffer-size invariant over histories) + measured streaming memory",
+    },
+    "C04": {
+        "text": "Coq theorems (Props/C04.v): reader level — a parked error survives every operation but check_io_error, which hands it "
+                "out once (invariant over all histories), and concrete runs are admissible abstract runs (simulation); parser level — "
+                "every syntax error of the LineReader programs is generated by give_up/give_up_at/give_up_at_mark, each proved to report "
+                "the parked error instead of a location; token::eof provably refuses a failing stream; the first empty peek parks the "
+                "error; and (srun_prefix, induction over programs) any result computed without seeing the end of the delivered data is "
+                "the result on every continuation, so items before the failure equal the unfailing items. PARTIAL: the end-to-end "
+                "statement for whole parsers is validated by the fault oracle on all seven parsers and the pa stream.",
+        "design_ref": "DESIGN.md 2/C04",
+        "note": "Trusted: as C01/C02. Defects D6, D8, D11, D12 (I/O error lost) were found by this check and fixed in /repo.",
+        "technique": "Coq proof (reader invariant, determinism of give-up programs, prefix monotonicity by induction on programs) + "
+                     "model/implementation correspondence + fault-injection oracle",
+    },
+    "C09": {
+        "text": "Coq theorems (Props/C09.v): for every reachable reader state a refill adds exactly one successful read() call (after the "
+                "Interrupted ones), none when complete or when BufReader leftovers remain; no operation calls the source after its "
+                "terminal event; a satisfied request/peek leaves the reader untouched; the newline and next_newline scanners ask for "
+                "no offset beyond the line break (minimal look-ahead, by induction on the input). PARTIAL: per-item look-ahead of the "
+                "whole parsers is checked by the one-line-per-read oracle on all formats and by comparing read-call counts with the model.",
+        "design_ref": "DESIGN.md 2/C09",
+        "note": "Trusted: as C02/C16.",
+        "technique": "Coq proof (call-count invariant over histories; minimal look-ahead of scanners) + model/implementation "
+                     "correspondence + line-by-line oracle",
+    },
+    "C05": {
+        "text": "Coq theorems (Props/C05.v): the refill loop terminates for every source; no history over the reader API yields "
+                "undefined behaviour, an index/overflow/assert panic or non-termination; advance panics exactly when asked to pass the "
+                "buffered data; digit accumulation returns None instead of wrapping for every admissible run; binary_uint rejects more "
+                "than 8 groups; AIG renumbering terminates on every graph (cyclic or not, any depth) and never panics. PARTIAL: the "
+                "parsers' own obligations are validated by the safe oracle (debug assertions and overflow checks on, counting allocator, "
+                "time limit) on all seven parsers and by the pa stream; heap and stack are measured, not modelled.",
+        "design_ref": "DESIGN.md 2/C05",
+        "note": "Trusted: as C02/C12/C13. Defects D4, D5, D7 (overflow, unbounded pre-allocation) were found by this check and fixed.",
+        "technique": "Coq proof (termination measures, safety invariants) + model/implementation correspondence + resource-measuring oracle",
+    },
+    "C06": {
+        "text": "Coq theorems (Props/C06.v): every admissible run of the unsigned and signed scanner programs returns exactly the "
+                "decimal value of the digit run when it fits the type and None otherwise (never a wrapped or truncated value), with the "
+                "offset just past the run; 7-bit groups decode to the encoded number; MAX_DIMACS of every literal type (regenerated "
+                "from the source) fits the type, so the cast after the range check is lossless. PARTIAL: enforcement of declared limits "
+                "by whole parsers is validated by the limits oracle (every limit at -1/0/+1, all formats) and the pa stream.",
+        "design_ref": "DESIGN.md 2/C06",
+        "note": "Trusted: as C13; translator for MAX_DIMACS / MAX_CODE.",
+        "technique": "Coq proof (exactness of scanners for all admissible runs) + translator-generated constants + limit oracle",
+    },
+    "C07": {
+        "text": "Coq theorems (Props/C07.v): lexical layout facts every token relies on — blank runs of any length are skipped as a whole, "
+                "LF and CRLF are one line break each, leading zeros do not change a numeral, '-0' reads as 0, a numeral's reading does "
+                "not depend on the non-digit that follows. PARTIAL: that whole parsers depend only on the token sequence is validated "
+                "by the expectation oracle (abstract values rendered with random layout, all formats) and the pa stream (model = code).",
+        "design_ref": "DESIGN.md 2/C07",
+        "note": "Trusted: as C16/C13.",
+        "technique": "Coq proof (scanner specifications by induction on the input) + model/implementation correspondence + layout oracle",
+    },
+    "C08": {
+        "text": "Coq theorems (Props/C08.v): give_up/give_up_at/give_up_at_mark are deterministic programs whose syntax error is "
+                "(current line, position - line start + 1); line_at_offset counts one line and moves the line start to cursor + "
+                "offset. PARTIAL: the invariant tying line start and line number to the LF bytes of the input across whole parsers is "
+                "validated by comparing every error location of the DIMACS family and solver logs with the model (pa stream) and by "
+                "the corruption / bounds oracle on all seven parsers. Known finding K1 (binary AIGER).",
+        "design_ref": "DESIGN.md 2/C08",
+        "note": "Trusted: as C01. Defects D2 (BTOR2 mark) and D11 (AIGER line accounting) were found by this check and fixed.",
+        "technique": "Coq proof (LineReader primitives) + model/implementation correspondence + location oracle",
+    },
+    "C03": {
+        "text": "Coq theorems (Props/C03.v): for every integer and every type it fits, the text the writer produces is read back as "
+                "that integer with the offset just behind it by every admissible run of the scanner programs, whatever non-digit "
+                "follows; write_binary_uint/binary_uint round trip for every delta below 2^56; the BTOR2 writer's operator names are "
+                "the parser's keywords (table regenerated from the source on every run). PARTIAL: whole-document round trips "
+                "(parse.write.parse and constructor-built values) are checked on the implementation by the rt oracle for all formats.",
+        "design_ref": "DESIGN.md 2/C03",
+        "note": "Trusted: as C11/C13; translator for the BTOR2 table. Defect D9 (DecimalConst) was found by this check and fixed.",
+        "technique": "Coq proof (number-level round trips) + translator-generated table + round-trip oracle",
     },
 }
